@@ -8,7 +8,7 @@ THEOREMS = {
         "frames_authentic", "frames_tamper_rejected", "wrong_key_rejected", "symAead_free",
         "verify_before_write", "fragment_mutation_rejected", "manifest_edit_safe", "count_edit_consistent_rejected",
         "staging_promote_atomic", "unpack_staged_no_partial",
-        "unpack_plain_partial_output", "unpack_enc_direct_partial_output", "unpack_plain_fixed",
+        "unpack_plain_partial_output_old", "unpack_enc_direct_partial_output", "unpack_plain_fixed",
         "c20_core", "c20_full_refuted", "c20_fixed", "c20_partial",
     ]],
     "Dawgs.Tie.C20": ["Dawgs.C20.Tie." + t for t in [
@@ -140,8 +140,9 @@ SPEC = {
         "byte-level mutation coverage is exhaustive only for the small dumps of the thorough tier; it supports the tie, it is not the proof",
     ],
     "explanation": "Lean: path.Clean / sanitizeArchivePath for all strings, extraction loop, frame protocol over a symbolic AEAD, Load ordering, "
-                   "staging protocol; F11 (plain UnpackTar and direct UnpackEncryptedCollectionArchive leave output behind on a late error) is modelled "
-                   "as it is, refuted by witness, proved for the staged variant.",
+                   "staging protocol; plain UnpackTar is modelled as the staged protocol it now is (F11 repaired; the old unstaged definition keeps its "
+                   "refutation as unpack_plain_partial_output_old); the direct UnpackEncryptedCollectionArchive still leaves output behind on a late "
+                   "error: modelled as it is, refuted by witness, proved for the staged variant.",
 }
 
 MANIFEST = {
@@ -156,8 +157,8 @@ MANIFEST = {
             "of ALL fragments, a fragment whose bytes changed is rejected under collision-free digests, and any manifest whose count/hash/size/path/"
             "codec fields disagree with the directory is rejected before a write; the staged Unpack never exposes a partial destination. The statement "
             "order of Load, O_EXCL, the typeflag allow-list, the AAD composition and the staging order are re-extracted from the source on every run. "
-            "Clause (c) is REFUTED for plain UnpackTar and for the direct UnpackEncryptedCollectionArchive (known findings, replayed every run) and "
-            "proved for the staged variant.",
+            "Clause (c) holds for plain UnpackTar since the F11 repair (staging + promote; live theorem unpack_plain_fixed, source shape re-extracted "
+            "every run) and is REFUTED for the direct UnpackEncryptedCollectionArchive only (known finding, replayed every run; proved for the staged Unpack).",
     "note": "Trusted: crypto primitives (symbolic AEAD), SHA-256 collision-freeness, archive/tar + codecs + JSON (partial decoders), OS O_EXCL/rename. "
             "Byte-level mutations are a search (exhaustive on small dumps in the thorough tier), not part of the proof. Unix paths only.",
 }
